@@ -15,6 +15,6 @@ mkdir -p "$W/replays"
 ( cd "$W" && timeout 1800 ./check "$ID" "$@" ) > /tmp/scratch/seedtest2.$$.log 2>&1
 rc=$?
 git -C "$R" checkout -- . ; git -C "$R" clean -fdq
-grep -E "VIOLATION|signature|evaluations=|BUILD-FAILED|INCONCLUSIVE" /tmp/scratch/seedtest2.$$.log | head -8
+grep -a -E "VIOLATION|signature|evaluations=|BUILD-FAILED|INCONCLUSIVE" /tmp/scratch/seedtest2.$$.log | head -8
 rm -f /tmp/scratch/seedtest2.$$.log
 echo "exit=$rc"
